@@ -1,5 +1,7 @@
 // Driver operations (included by vh_main.hpp)
 #pragma once
+#include <type_traits>
+#include <utility>
 
 namespace vh {
 
@@ -115,6 +117,30 @@ static inline void saveLoad(Driver& d, Inst& from, Inst& to, long step) {
 	to.probe.quiet = false;
 	if (*g1.b != *g2.b) { d.log.tag('V'); d.log.s("C08.resave-differs"); d.log.i(from.idx); d.log.i(to.idx); d.log.nl(); }
 	if (!g2.intact()) { d.log.tag('V'); d.log.s("C08.save-wrote-outside-the-buffer"); d.log.nl(); }
+}
+#endif
+
+#ifdef HFSM2_ENABLE_TRANSITION_HISTORY
+// C11 "replaying over-long histories": more transitions than any history can hold, all with valid identifiers, from an exact-size
+// heap block (a read past the list or a write past the history is a sanitizer report); afterwards the instance must still be well-formed
+static inline void overlongReplay(Driver& d, Inst& in, long step) {
+	typedef typename std::remove_cv<typename std::remove_reference<decltype(std::declval<Instance&>().previousTransitions()[0])>::type>::type Tr;
+	if (!in.m->isActive((hfsm2::StateID)0)) return;
+	Probe& p = in.probe; p.step = (uint64_t)step;
+	const int n = 8 * VH_SHAPE.nStates + 64 + (int)(d.next() % 9);
+	Tr* list = (Tr*)malloc(sizeof(Tr) * (size_t)n);
+	int made = 0;
+	for (int i = 0; i < n; ++i) {
+		int kk = 0, dest = 0;
+		if (!pickReq(p, VH_KINDMASK, kk, dest)) { kk = 0; dest = 0; }
+		new (&list[made++]) Tr{(hfsm2::StateID)dest, (hfsm2::TransitionType)kk};
+	}
+	d.opBegin(in, OP_OVERLONG, made);
+	const bool ok = in.m->replayTransitions(list, (hfsm2::Short)made);
+	d.log.tag('v'); d.log.i(ok); d.log.nl();
+	d.opEnd(in);
+	for (int i = 0; i < made; ++i) list[i].~Tr();
+	free(list);
 }
 #endif
 
@@ -347,6 +373,9 @@ inline int Driver::run() {
 #endif
 			lastOp = saved;
 			if (rep || (next() & 1)) saveLoad(*this, a, b, k); else saveLoad(*this, b, a, k);
+#ifdef HFSM2_ENABLE_TRANSITION_HISTORY
+			if (wOverlong && (int)(next() % 100) < wOverlong) overlongReplay(*this, (next() & 1) && !rep ? a : b, k);
+#endif
 		}
 #endif
 		if (wRecreate && !rep && (int)(next() % 1000) < wRecreate) { destroy(a, k); construct(a, k);
